@@ -35,3 +35,250 @@ Proof.
   - apply init_inv.
   - eapply step_inv; eauto.
 Qed.
+
+(* ------------------------------------------------------------ the property *)
+Lemma outside_contrib th : status_of th = Outside -> contrib th = 0.
+Proof.
+  unfold status_of, contrib. destruct (nest_depth (t_stack th)); [|discriminate].
+  destruct (t_ctl th); simpl; auto; discriminate.
+Qed.
+
+Lemma all_outside_total l :
+  Forall (fun th => status_of th = Outside) l -> total l = 0.
+Proof.
+  induction 1; simpl; auto. rewrite (outside_contrib _ H). lia.
+Qed.
+
+Lemma Forall_nth {A} (P : A -> Prop) l i x : Forall P l -> nth_error l i = Some x -> P x.
+Proof. intros F H. rewrite Forall_forall in F. apply F. eapply nth_error_In; eauto. Qed.
+
+Theorem quiescent_restored user created0 progs s :
+  reach (init_state user created0 progs) s ->
+  quiescent (statuses s) ->
+  tbl (sh s) = init_entry user.
+Proof.
+  intros R Q. apply reach_inv in R. destruct R as [(G1 & G2 & G3 & G4 & G5) L].
+  unfold quiescent, statuses in Q. rewrite Forall_map in Q.
+  assert (T := all_outside_total _ Q). rewrite <- G1 in T.
+  assert (LK : lock (sh s) = None).
+  { destruct (lock (sh s)) as [[i d]|]; auto. exfalso.
+    destruct G3 as (_ & th & p & dd & H1 & H2 & H3).
+    pose proof (Forall_nth _ _ _ _ Q H1) as O. unfold status_of in O.
+    rewrite H2 in O. destruct (nest_depth (t_stack th)); discriminate. }
+  specialize (G2 LK). rewrite T in G2. unfold stableP in G2. unfold init_entry.
+  destruct user; simpl in G2; tauto.
+Qed.
+
+Lemma inside_contrib th : status_of th = Inside -> 1 <= Z.of_nat (nest_depth (t_stack th)).
+Proof.
+  unfold status_of. destruct (nest_depth (t_stack th)); [|lia].
+  destruct (t_ctl th); discriminate.
+Qed.
+
+Theorem entry_while_inside user created0 progs s :
+  reach (init_state user created0 progs) s ->
+  some_inside (statuses s) ->
+  tbl (sh s) <> NoEntry.
+Proof.
+  intros R Q. apply reach_inv in R. destruct R as [(G1 & G2 & G3 & G4 & G5) L].
+  unfold some_inside, statuses in Q. rewrite Exists_map in Q. apply Exists_exists in Q.
+  destruct Q as (th & IN & ST). apply In_nth_error in IN. destruct IN as [i Hi].
+  pose proof (inside_contrib _ ST) as D.
+  pose proof (total_ge_one _ _ _ Hi) as GE. rewrite <- G1 in GE.
+  assert (C1 : 1 <= contrib th).
+  { unfold contrib. destruct (t_ctl th) as [| |p d]; try destruct p; simpl; lia. }
+  destruct (lock (sh s)) as [[j dd]|] eqn:LK.
+  - destruct G3 as (_ & thj & p & d & H1 & H2 & H3).
+    destruct (L _ _ H1) as [PC _]. rewrite H2 in PC. destruct PC as (_ & _ & _ & _ & _ & TA).
+    assert (C2 : 1 + pc_contrib p <= rc (sh s)).
+    { destruct (Nat.eq_dec i j) as [->|N].
+      - rewrite Hi in H1. inversion H1; subst thj. unfold contrib in GE. rewrite H2 in GE. lia.
+      - pose proof (total_ge_two _ _ _ _ _ N Hi H1) as G. rewrite <- G1 in G.
+        unfold contrib at 2 in G. rewrite H2 in G. lia. }
+    unfold tab_at, stableP in TA.
+    destruct p; simpl in H3; try discriminate; simpl in C2; destruct user;
+      repeat match goal with
+             | H : context [?a <? ?b] |- _ => destruct (Z.ltb_spec a b)
+             end; intuition (try congruence; try lia).
+  - specialize (G2 eq_refl). unfold stableP in G2.
+    destruct user; [intuition congruence|].
+    destruct (Z.ltb_spec 0 (rc (sh s))); [intuition congruence | lia].
+Qed.
+
+(* the counter counts the copies in flight *)
+Theorem refcount_counts_copies user created0 progs s :
+  reach (init_state user created0 progs) s ->
+  rc (sh s) = total (ths s) /\ 0 <= rc (sh s).
+Proof.
+  intros R. apply reach_inv in R. destruct R as [(G1 & _) _]. split; auto.
+  rewrite G1. apply total_nonneg.
+Qed.
+
+Theorem snapshots_ok user created0 progs s :
+  reach (init_state user created0 progs) s ->
+  snap_ok (init_entry user) (statuses s) (tbl (sh s)).
+Proof.
+  intros R. split.
+  - eapply quiescent_restored; eauto.
+  - eapply entry_while_inside; eauto.
+Qed.
+
+(* ------------------------------------------------------------ module copies succeed *)
+Definition inside_b (st : list frame) : bool := negb (Nat.eqb (nest_depth st) 0).
+
+Fixpoint stack_ok (st : list frame) : Prop :=
+  match st with
+  | [] => True
+  | FNest _ rest :: r => forallb (guarded (inside_b r)) rest = true /\ stack_ok r
+  | FTry rest :: r => forallb (guarded (inside_b r)) rest = true /\ stack_ok r
+  end.
+
+Definition thread_ok (th : thread) : Prop :=
+  t_fails th = 0%nat /\ stack_ok (t_stack th) /\
+  match t_ctl th with
+  | Run => forallb (guarded (inside_b (t_stack th))) (t_code th) = true
+  | Unwind => True
+  | Proto _ d => forallb (guarded true) (p_body d) = true /\
+                 forallb (guarded (inside_b (t_stack th))) (p_rest d) = true
+  end.
+
+Lemma tstep_thread_ok a t s th s' th' lb :
+  tstep false a t s th = Some (s', th', lb) ->
+  (inside_b (t_stack th) = true -> tbl s <> NoEntry) ->
+  thread_ok th -> thread_ok th'.
+Proof.
+  intros ST E (F & SK & C). unfold tstep in ST.
+  destruct th as [c code stk fails crashed]; simpl in *. subst fails.
+  destruct c as [| |p d].
+  - destruct code as [|[m| | |ab b|b] rest]; simpl in C.
+    + destruct stk as [|[ab rest|rest] st]; try discriminate; inversion ST; subst; clear ST;
+        unfold thread_ok; simpl in *; tauto.
+    + apply andb_true_iff in C. destruct C as [C1 C2].
+      destruct m; simpl in *.
+      * specialize (E C1). destruct (tbl s); try congruence; simpl in ST;
+          inversion ST; subst; unfold thread_ok; simpl; tauto.
+      * inversion ST; subst; unfold thread_ok; simpl; tauto.
+    + inversion ST; subst; unfold thread_ok; simpl; tauto.
+    + inversion ST; subst; unfold thread_ok; simpl; tauto.
+    + apply andb_true_iff in C. inversion ST; subst; unfold thread_ok; simpl; tauto.
+    + apply andb_true_iff in C. inversion ST; subst; unfold thread_ok; simpl.
+      unfold inside_b in *; simpl. tauto.
+  - destruct stk as [|[ab rest|rest] st]; inversion ST; subst; clear ST;
+      unfold thread_ok; simpl in *; tauto.
+  - destruct (fires a d p).
+    + inversion ST; subst. unfold thread_ok; simpl; tauto.
+    + destruct (line_step t s p); try discriminate; inversion ST; subst; clear ST;
+        unfold thread_ok; simpl; try tauto.
+      destruct (p_exc d); unfold thread_ok; simpl; tauto.
+Qed.
+
+Lemma Forall_upd {A} (P : A -> Prop) l i x : Forall P l -> P x -> Forall P (upd i x l).
+Proof.
+  intros F; revert i; induction F; intros [|i] Px; simpl; constructor; auto.
+Qed.
+
+Lemma init_threads_ok progs :
+  Forall (fun p => guarded_prog p = true) progs -> Forall thread_ok (map init_thread progs).
+Proof.
+  induction 1; simpl; constructor; auto.
+  unfold thread_ok; simpl. auto.
+Qed.
+
+Lemma reach_threads_ok user created0 progs s :
+  Forall (fun p => guarded_prog p = true) progs ->
+  reach (init_state user created0 progs) s -> Forall thread_ok (ths s).
+Proof.
+  intros GP R. induction R.
+  - simpl. apply init_threads_ok; auto.
+  - unfold step in H.
+    destruct (nth_error (ths s) t) as [th|] eqn:Ht; try discriminate.
+    destruct (tstep false safe_abort t (sh s) th) as [[[s1 th1] l1]|] eqn:TS; try discriminate.
+    inversion H; subst; clear H. simpl. apply Forall_upd; auto.
+    eapply tstep_thread_ok; eauto.
+    + intros IB. eapply entry_while_inside; eauto.
+      unfold some_inside, statuses. rewrite Exists_map. apply Exists_exists.
+      exists th. split; [eapply nth_error_In; eauto|].
+      unfold status_of, inside_b in *. destruct (nest_depth (t_stack th)); simpl in IB; auto; discriminate.
+    + eapply Forall_nth; eauto.
+Qed.
+
+Theorem module_copies_succeed user created0 progs s :
+  Forall (fun p => guarded_prog p = true) progs ->
+  reach (init_state user created0 progs) s ->
+  Forall (fun th => t_fails th = 0%nat) (ths s).
+Proof.
+  intros GP R. pose proof (reach_threads_ok _ _ _ _ GP R) as F.
+  eapply Forall_impl; [|exact F]. intros th (H & _); auto.
+Qed.
+
+(* ------------------------------------------------------------ no deadlock *)
+Lemma tstep_none r a t s th :
+  tstep r a t s th = None ->
+  finished th \/ exists p d, t_ctl th = Proto p d /\ line_step t s p = Blocked.
+Proof.
+  unfold tstep, finished. destruct th as [c code stk fails crashed]; simpl.
+  destruct c as [| |p d].
+  - destruct code as [|[m| | |ab b|b] rest]; try discriminate.
+    + destruct stk as [|[ab rest|rest] st]; try discriminate; auto.
+    + destruct (m && entry_eqb (tbl s) NoEntry); discriminate.
+  - destruct stk as [|[ab rest|rest] st]; discriminate.
+  - destruct (fires a d p); try discriminate.
+    destruct (line_step t s p) eqn:E; try discriminate.
+    intros _. right. eauto.
+Qed.
+
+Lemma blocked_cases t s p :
+  line_step t s p = Blocked ->
+  (p = NAcq /\ exists j, clock s = Some j) \/
+  ((p = EAcq \/ p = XAcq) /\ exists j d, lock s = Some (j, d) /\ j <> t).
+Proof.
+  destruct p; simpl; try discriminate.
+  - destruct (clock s); try discriminate. left; eauto.
+  - destruct (lock s) as [[o d]|]; simpl; try discriminate.
+    destruct (Nat.eqb_spec o t); try discriminate. right. split; eauto.
+  - destruct (lock s) as [[o d]|]; simpl; try discriminate.
+    destruct (Nat.eqb_spec o t); try discriminate. right. split; eauto.
+  - destruct (tbl s); discriminate.
+Qed.
+
+Lemma holder_moves a j s th p d :
+  t_ctl th = Proto p d -> holdsL p = true \/ holdsC p = true ->
+  exists r, tstep false a j s th = Some r.
+Proof.
+  intros C H. unfold tstep. rewrite C.
+  destruct (fires a d p); [eexists; reflexivity|].
+  destruct p; simpl in H; destruct H as [H|H]; try discriminate; simpl;
+    try (eexists; reflexivity).
+  destruct (tbl s); eexists; reflexivity.
+Qed.
+
+Theorem no_deadlock user created0 progs s :
+  reach (init_state user created0 progs) s ->
+  (exists t th, nth_error (ths s) t = Some th /\ ~ finished th) ->
+  exists t s' lb, step false safe_abort s t = Some (s', lb).
+Proof.
+  intros R (t & th & Ht & NF). apply reach_inv in R. destruct R as [(G1 & G2 & G3 & G4 & G5) L].
+  assert (MV : forall j thj r, nth_error (ths s) j = Some thj ->
+                 tstep false safe_abort j (sh s) thj = Some r ->
+                 exists t s' lb, step false safe_abort s t = Some (s', lb)).
+  { intros j thj [[s1 th1] l1] Hj TS. exists j. unfold step. rewrite Hj, TS. eauto. }
+  destruct (tstep false safe_abort t (sh s) th) as [r|] eqn:TS.
+  - exact (MV _ _ _ Ht TS).
+  - apply tstep_none in TS. destruct TS as [F|(p & d & C & B)]; [contradiction|].
+    apply blocked_cases in B. destruct B as [(-> & j & CK)|(_ & j & dd & LK & _)].
+    + rewrite CK in G4. destruct G4 as (thj & pj & dj & H1 & H2 & H3).
+      destruct (holder_moves safe_abort j (sh s) thj pj dj H2 (or_intror H3)) as [r Hr].
+      exact (MV _ _ _ H1 Hr).
+    + rewrite LK in G3. destruct G3 as (_ & thj & pj & dj & H1 & H2 & H3).
+      destruct (holder_moves safe_abort j (sh s) thj pj dj H2 (or_introl H3)) as [r Hr].
+      exact (MV _ _ _ H1 Hr).
+Qed.
+
+(* ------------------------------------------------------------ executable schedules are interleavings *)
+Lemma run_sched_reachable r a s0 sched : forall s,
+  reachable r a s0 s -> reachable r a s0 (run_sched r a s sched).
+Proof.
+  induction sched as [|t rest IH]; intros s R; simpl; auto.
+  destruct (step r a s t) as [[s' l]|] eqn:E; auto.
+  apply IH. eapply reach_step; eauto.
+Qed.
